@@ -311,8 +311,9 @@ class ReaderToSearcher(object):
     name = 'reader-to-searcher'
     describe = ('the modification time the REAL FileReader reports for a source file handed to the real PyFileSearcher / '
                 'AnyFileSearcher / PyPackageSearcher over a destination holding a transformed copy; source and copy times with '
-                'sub-second parts (x.00, x.25, x.75) one second apart, in the same second, and equal: up to date exactly when the '
-                'copy is not older at whole-second resolution (what a .pyc header can record)')
+                'sub-second parts (x.00, x.25, x.75) one second apart, in the same second, and equal; the source a plain file, a '
+                'symbolic link made 100 s before / after the text was last written, a hard link, a file in a linked directory: up '
+                'to date exactly when the copy is not older than the TEXT')
 
     def blocks(self, tier):
         return [{'kind': k} for k in ('any', 'py', 'pkg')]
@@ -321,7 +322,8 @@ class ReaderToSearcher(object):
         for sfrac in (0.0, 0.25, 0.75):
             for dsec in (-1, 0, 1):
                 for dfrac in (0.0, 0.25, 0.75):
-                    yield {'kind': block['kind'], 'sfrac': sfrac, 'dsec': dsec, 'dfrac': dfrac}
+                    for layout in ('plain', 'link-made-earlier', 'link-made-later', 'hard-link', 'directory-link'):
+                        yield {'kind': block['kind'], 'sfrac': sfrac, 'dsec': dsec, 'dfrac': dfrac, 'layout': layout}
 
     def run_case(self, case):
         from pysmi.reader.localfile import FileReader
@@ -332,10 +334,26 @@ class ReaderToSearcher(object):
         pkgname = None
         try:
             sp = os.path.join(src, 'FOO-MIB.mib')
-            with open(sp, 'w') as f:
-                f.write('FOO-MIB DEFINITIONS ::= BEGIN END\n')
+            layout = case.get('layout', 'plain')
             st = SRC_MTIME + case['sfrac']
-            os.utime(sp, (st, st))
+            if layout == 'plain':
+                real = sp
+            else:
+                # the text lives elsewhere; the source directory reaches it through a link with a time stamp of its own
+                os.mkdir(os.path.join(dst, 'vendor'))
+                real = os.path.join(dst, 'vendor', 'FOO-MIB.mib')
+            with open(real, 'w') as f:
+                f.write('FOO-MIB DEFINITIONS ::= BEGIN END\n')
+            os.utime(real, (st, st))
+            if layout in ('link-made-earlier', 'link-made-later'):
+                os.symlink(real, sp)
+                lt = st + (-100 if layout == 'link-made-earlier' else 100)
+                os.utime(sp, (lt, lt), follow_symlinks=False)
+            elif layout == 'hard-link':
+                os.link(real, sp)
+            elif layout == 'directory-link':
+                os.rmdir(src)
+                os.symlink(os.path.join(dst, 'vendor'), src)
             ext = '.json' if case['kind'] == 'any' else '.py'
             dp = os.path.join(dst, 'FOO-MIB' + ext)
             with open(dp, 'w') as f:
@@ -367,7 +385,8 @@ class ReaderToSearcher(object):
             vs = []
             if got != want:
                 vs.append(('C10|reader-to-searcher|%s|answered-%s-where-%s|%s' % (
-                    case['kind'], got, want, 'same-second' if int(dt) == int(st) else 'other-second'),
+                    case['kind'], got, want, ('same-second' if int(dt) == int(st) else 'other-second') +
+                    ('' if layout == 'plain' else '|' + layout)),
                     'source mtime %r (reader reports %r), copy mtime %r' % (st, info.mtime, dt)))
             return got, vs, 1
         finally:
@@ -376,6 +395,8 @@ class ReaderToSearcher(object):
                 for k in [k for k in sys.modules if k == pkgname or k.startswith(pkgname + '.')]:
                     del sys.modules[k]
                 importlib.invalidate_caches()
+            if os.path.islink(src):
+                os.unlink(src)
             shutil.rmtree(src, ignore_errors=True)
             shutil.rmtree(dst, ignore_errors=True)
 
@@ -513,4 +534,16 @@ class SearcherHistories(object):
                 importlib.invalidate_caches()
             shutil.rmtree(root, ignore_errors=True)
 
-FAMILIES = [SearcherLists(), FileSearchers(), SeveralSearchers(), StubNames(), ReaderToSearcher(), NoDepsFileNames(), SearcherHistories()]
+def _borrowed_copy_ages():
+    from mc.checks import C19
+
+    class BorrowedCopyAges(C19.CopyAges):
+        """The freshness rule for modules that can only be borrowed: each module's existing copy is compared with the age of ITS OWN
+        borrowable copy (two or three failing modules with copies of different ages in one call)."""
+        prefix = 'C10'
+        name = 'ages-of-borrowable-copies'
+    return BorrowedCopyAges()
+
+
+FAMILIES = [SearcherLists(), FileSearchers(), SeveralSearchers(), StubNames(), ReaderToSearcher(), NoDepsFileNames(), SearcherHistories(),
+            _borrowed_copy_ages()]
